@@ -151,6 +151,10 @@ CD_SLOTS = [
     "{A} && {B} & {B}", "ls | {A}; {B}", "{A} > /dev/null; {B}", "{ {A}; } > /dev/null; {B}", "f() { {A}; }; {B}", "{A}; f() { {B}; }",
     "[[ -n a ]] && {A}; {B}", "(( 1 )) && {A} && {B}", "[[ -n a ]] && {A} && {B}", "{A}; [[ -n a ]] > only/g2", "{A}; (( 1 )) > deep/g2",
     "coproc {A}; {B}", "{A} && coproc {B}", "{A}; {A}; {B}", "{A} && {A} && {B}", "{A}; {B}; {A}; {B}",
+    # a redirection on the compound itself is opened before anything inside it runs
+    "if {A}; then true; fi > only/g", "if true; then {A}; fi > only/g", "{ {A}; } > only/g", "( {A} ) > only/g", "for v in a; do {A}; done > only/g",
+    "case x in x) {A};; esac > only/g", "{ {A}; } > deep/g", "if {A}; then true; else true; fi >> only/g", "{A} > only/g", "{A} && true > deep/g",
+    "for ((i=0;i<1;i++)); do {A}; done > only/g", "{ {A} && {B}; } > only/g2", "if {A}; then {B}; fi > only/g2",
 ]
 # loops whose end depends on {A}: only with variants of A that let them end
 CD_LOOPS = [("while {A}; do {B}; done", ["cd sub", "cd sub && false", "cd nosuch", "cd sub; false", "cd ./sub/", "cd -- sub", "X=1 cd sub", "command cd sub", "cd sub > /dev/null"]),
